@@ -91,7 +91,8 @@ def _dump_system(system: Union[
                  ],
                  **kwargs) -> Iterable[str]:
     if isinstance(system, votelib.VotingSystem):
-        yield f'title={system.name}'
+        if system.name is not None:
+            yield f'title={system.name}'
         yield from _dump_system(system.evaluator, **kwargs)
     elif isinstance(system, votelib.evaluate.FixedSeatCount):
         yield f'seats={system.n_seats}'
@@ -166,8 +167,13 @@ def _dump_ballots(votes: Dict[Tuple[Candidate, ...], Number],
         yield f'{prefix}={cand_nicks[cand]} {cand_names[cand]}'
     yield f'ballots={len(votes)}'
     for ranking, n_votes in votes.items():
-        multiplier = f'{n_votes}X ' if n_votes != 1 else ''
-        yield multiplier + _ranking_to_str(ranking, cand_nicks)
+        line = _ranking_to_str(ranking, cand_nicks)
+        if n_votes != 1 or line in ('', 'end'):
+            # an empty line or a bare 'end' would not be read as a ballot
+            if isinstance(n_votes, decimal.Decimal):
+                n_votes = format(n_votes, 'f')    # no exponent notation
+            line = f'{n_votes}X {line}'
+        yield line
     yield 'end'
 
 
@@ -196,7 +202,8 @@ def _candidate_nicks(cand_names: Dict[Candidate, str]) -> Dict[Candidate, str]:
     all_initials = []
     for cand_name in cand_names.values():
         cand_initials = _name_to_initials(cand_name)
-        if cand_initials in all_initials:    # duplicate, fall back to trivial
+        if not cand_initials or cand_initials in all_initials:
+            # no initials or duplicate, fall back to trivial
             return _ordinal_candidate_nicks(cand_names.keys())
         else:
             all_initials.append(cand_initials)
@@ -211,7 +218,9 @@ def _name_to_initials(name: str) -> str:
 
 def _ordinal_candidate_nicks(cand_names: Collection[Candidate]
                              ) -> Dict[Candidate, str]:
-    n_letters = int(math.ceil(math.log(len(cand_names)) / math.log(26)))
+    n_letters = max(
+        1, int(math.ceil(math.log(len(cand_names)) / math.log(26)))
+    )
     nicks = {}
     for cand_i, cand in enumerate(cand_names):
         nick_letters = []
